@@ -13,7 +13,7 @@ EVIDENCE = dict(
          "nothing or a heading level (built-in style, name only in either case, outline level only; ODT: with / without "
          "default-outline-level) and whose root is based on nothing / the default style / an undefined style / a style of the "
          "chain (cycle), with the spec-computed level (nearest declaration wins), D every heading declaration x header/footer parts and nested list runs; each for DOCX and "
-         "ODT. Each case is rendered by the independent writers and read through docx.Open/odt.Open and tabula.Open "
+         "ODT. H every history of 3 calls out of {Text, Markdown, MarkdownWithOptions, MarkdownWithRAGOptions x options, Document, ModelTables} on ONE reader over documents with headings of level 1..9 (ODT ..10), each call compared with the spec's levels for a fresh reader and with a fresh reader's result. Each case is rendered by the independent writers and read through docx.Open/odt.Open and tabula.Open "
          "(Text, Markdown, Document). Non-trivial = body with a table or a paragraph mixing >= 3 inline kinds; distinct by "
          "format + body. Traces = documents (a sample of the cases + larger random ones) whose observed model WordDocTrace.tla accepted.",
     assumptions=["the DOCX/ODT writers (harness/internal/wpw) are trusted; they are audited for XML well-formedness, token numbering "
@@ -43,6 +43,15 @@ NOTES = """Interpretation choices (soundness first):
 * Style sheets (ODT): a text:h's own text:outline-level decides (ODF 1.2 part 1, 5.1.2); the sheet's styles that
   carry a default-outline-level agree with it (no conflicting documents are generated); cyclic / dangling parent
   chains are unconstrained.  text:p is never asserted to become a heading through its style.
+* Heading levels run 1..9 in DOCX (outline levels 0..8, Heading1..Heading9) and 1..10 in ODT (text:outline-level is a
+  positive integer; writers offer ten levels).  Expectation per view: the document model reports the authored level,
+  Markdown writes min(level, 6) '#'; MarkdownWithRAGOptions(offset, max) writes clamp(level + offset, 1, min(max, 6))
+  (max = 0: no cap of its own).
+* Histories (WordHistory.tla): a docx.Reader / odt.Reader is a state machine whose calls (Text, Markdown,
+  MarkdownWithOptions, MarkdownWithRAGOptions, Document, ModelTables) must not change what it holds: every call of every
+  history of <= 3 calls must present the heading levels the spec computes for a freshly opened reader, keep all tokens in
+  order, and return byte-for-byte what the same call returns on a fresh reader.  The write-back reader (Markdown
+  stores its capped level into the parsed paragraph) is refuted by TLC.
 * List nesting: model.ListItem.Level relative to the shallowest item; in Text/Markdown only the *direction* of the
   indentation change between consecutive items.  Ordered/unordered and the numbers themselves are not asserted.
 * Table grid: in the model every anchor cell at its (row, col) with its spans and tokens, nothing else non-empty, and
@@ -132,7 +141,55 @@ def run(ctx):
     ctx.extra["trace_events"] = {k: len(v) for k, v in events.items()}
     for f in ("docx", "odt"):
         _trace(ctx, events[f], f)
+    _histories(ctx, q)
+
+
+def _histories(ctx, q):
+    """Purity of rendering (WordHistory.tla): histories of calls on ONE docx.Reader / odt.Reader."""
+    gen = ctx.tlc("WordHistoryMC", "WordHistory_mc_quick.cfg" if q else "WordHistory_mc_thorough.cfg", workers=8,
+                  collect=True, timeout=1800)
+    neg = ctx.tlc("WordHistoryMC", "WordHistory_mc_impl.cfg", workers=1, expect_violation=True)
+    ctx.extra["writeback_reader_refuted"] = neg["violated"]
+    cases = gen["cases"]
+    if not cases:
+        raise vlib.MachineryError("WordHistoryMC emitted no histories")
+    ctx.extra["histories"] = len(cases)
+    c0 = cases[len(cases) // 2]
+    ctx.sample({"history_on_one_reader": [[c["op"], c["off"], c["mx"], c["levels"]] for c in c0["calls"]], "fmt": c0["fmt"]})
+    res = ctx.run_driver(["c16", "history"], cases)
+    _machinery(res)
+    absorb(ctx, res, label="hist")
+    # R3: random longer histories on random documents
+    rec = ctx.run_driver(["c16", "histrecord"], [{"n": 6, "blocks": 10, "calls": 6 if q else 10} for _ in range(8 if q else 80)])
+    _machinery(rec)
+    events = []
+    for r in rec:
+        ctx.evaluations += r.get("evals", 0)
+        events += r.get("events") or []
+    if not events:
+        raise vlib.MachineryError("history record driver logged no events")
+    segs = sum(1 for e in events if e["event"] == "Open")
+    ctx.extra["history_trace_events"] = len(events)
+    tv = ctx.validate_trace("WordHistoryTrace", "WordHistoryTrace.cfg", events)
+    if tv["accepted"]:
+        ctx.traces_validated += segs
+        return
+    line = tv["depth"]
+    ev = events[line - 1] if 0 < line <= len(events) else None
+    if not ev or ev["event"] != "Call":
+        raise vlib.MachineryError("WordHistoryTrace rejects event %d (%s): the history generator left the specification's "
+                                  "document language" % (line, vlib.json.dumps(ev)[:400]))
+    start = max(i for i in range(line) if events[i]["event"] == "Open")
+    before = [e["op"] for e in events[start + 1:line - 1]]
+    ctx.violation("C16:history-trace:%s:%s" % (events[start].get("fmt"), ev.get("op")),
+                  "WordHistoryTrace rejects call %s(offset=%s, max=%s) on a %s reader after %s: heading levels read back per block %s "
+                  "are not the levels a freshly opened reader presents"
+                  % (ev.get("op"), ev.get("off"), ev.get("mx"), events[start].get("fmt"), before, ev.get("levels")),
+                  {"trace_segment": events[start:line], "rejected_line": line})
 
 
 def replay(ctx, rp):
+    r = rp.get("replay") or {}
+    if isinstance(r.get("case"), dict) and r["case"].get("kind") == "history":
+        return replay_generic(ctx, rp, ["c16", "history"])
     return replay_generic(ctx, rp, ["c16", "replay"])
